@@ -81,6 +81,7 @@ RULES: Dict[str, Dict[str, Any]] = {
     # @onnx_function primitives: the original callable is evaluated per example under jax.vmap (C10 anchor `FunctionPlugin._batching_rule`)
     "jax2onnx/plugins/plugin_system.py": dict(spec=Spec("elementwise", {}, const={"_opaque_callee": ("original_fn",)}), dom="none", param="-", operands="two-any", func="FunctionPlugin._batching_rule"),
     PJ + "nn/dot_product_attention.py": dict(spec=Spec("attention", {"has_bias": "has_bias", "has_mask": "has_mask"}, const={"_stretch_names": {41: "n0"}}), dom="none", param="-", operands="attention"),
+    PJ + "numpy/einsum.py": dict(spec=Spec("einsum", {"equation": "equation"}, orig={}, orig_pos=("equation",), const={"_stretch_names": {7: "B"}}), dom="none", param="-", operands="einsum"),
     PJ + "numpy/linspace.py": dict(spec=Spec("linspace", {"axis": "axis"}), dom="axis_out", param="axis", operands="linspace"),
 }
 
@@ -235,6 +236,14 @@ def _cases(entry: Dict[str, Any], fi: FuncInfo) -> Iterable[Tuple[List[Optional[
                 for side in (("T", "S"), ("N", "T", "S")) + ((lead + ("N", "T", "S"),) if lead else ()):
                     sb = [0, len(side), None]
                     ops.append(([q_, k_, k_, side], [[b, b, b, s] for b in (0, rq) for s in sb]))
+        elif kind_ops == "einsum":
+            if r != 1:
+                continue
+            ops = []
+            for eq, labs in (("ij,jk->ik", [("e0", "k"), ("k", "e1")]), ("i,i->", [("k",), ("k",)]), ("nij,njk->nik", [("n0", "e0", "k"), ("n0", "k", "e1")]), ("ij->ji", [("e0", "e1")])):
+                choices = [list(range(len(L_) + 1)) + [None] for L_ in labs]
+                bdl = [list(c) for c in itertools.product(*choices) if not all(b is None for b in c)]
+                ops.append((list(labs) + [eq], bdl))
         elif kind_ops == "contract":
             if r != 1:
                 continue
@@ -294,6 +303,9 @@ def _cases(entry: Dict[str, Any], fi: FuncInfo) -> Iterable[Tuple[List[Optional[
                         yield [Lq], [bd], p, cls_of(v)
             continue
         for labels, bdlist in ops:
+            eq_ = None
+            if labels and isinstance(labels[-1], str):
+                eq_, labels = labels[-1], labels[:-1]
             for bds in bdlist:
                 for v in vals:
                     kd = (False, True) if has_keepdims and entry["spec"].kind == "reduce" else (None,)
@@ -306,6 +318,8 @@ def _cases(entry: Dict[str, Any], fi: FuncInfo) -> Iterable[Tuple[List[Optional[
                             p[param] = v
                         if k is not None:
                             p["keepdims"] = k
+                        if eq_ is not None:
+                            p["equation"] = eq_
                         if kind_ops == "attention":
                             p["has_bias"] = len(labels) == 4
                         yield labels, bds, p, cls_of(v)
